@@ -45,6 +45,33 @@ CHECKS = {
         text="merge/+= bin-wise sum with edges kept and agreement, commutativity, empty identity, reset, *=, mismatch => the call does not return "
              "(post-call cover unreachable), iteration order/length; no-mutation-on-mismatch by 'asserts dominate writes' on the real AST.",
         note="Trusted: CBMC; counts < 2^40, multiplier < 2^20; float-valued views are decided under exact reals (not yet: see evidence), LEN list per tier."),
+    "C05": dict(engine="RS", technique=RS_TECH + "; stage-wise contracts on the real body of Quantile::add against a clean-room P-square reference", design="6/C05",
+        note=RS_NOTE + " A-SPEC: reference step transcribed from Jain & Chlamtac 1985. The composition of the four stage contracts over the stream is argued, not machine-checked.",
+        text="Quantile::add (n>=5) is proved equal to the paper's step stage by stage (prologue; adjust marker 1,2,3), each from an arbitrary symbolic "
+             "well-formed state, every height/position/desired position on every path, with well-formedness (n[0]=1, n[4]=count, increasing positions, ordered heights) preserved; "
+             "new(), the fill phase and quantile()=middle marker are separate contracts."),
+    "C07": dict(engine="RS", technique=RS_TECH, design="6/C07", note=RS_NOTE + " A-LIB: float_ord::sort, ceil, conv_nearest.",
+        text="Quantile::quantile for 1..4 stored observations (symbolic values in arrival order, symbolic p in [0,1]) equals on every path the "
+             "sample quantile written from the statement over the specification's own sorting network; p=0 / p=1 instances named."),
+    "C11": dict(engine="K+VL", technique="Kani proof harnesses over fully symbolic valid states (loop free => complete), Verus merge-tree lemma", design="6/C11",
+        text="For every Merge type: merging new() into a leaves the observable state bit-for-bit, merging a into new()/default() yields a's state bit-for-bit, "
+             "len adds exactly, is_empty <=> len==0, the argument is unchanged. States are arbitrary under is_valid (proved inductive elsewhere).",
+        note="Trusted: CBMC; is_valid over-approximates reachability; define_moments! N in {4,6}, histograms LEN in {1,3}; len_adds of Kurtosis/MomentsN in thorough tier (quick: C02's integer obligation)."),
+    "C15": dict(engine="RS+K", technique=RS_TECH + "; Kani for new() panics-iff and bit-precise bookkeeping", design="6/C15", note=RS_NOTE,
+        text="Well-formed marker state as an inductive invariant of the stage contracts of add (extremes = running min/max, ordered heights, exact count, p untouched); "
+             "quantile() NaN iff empty and inside [min,max] in every phase; Quantile::new panics exactly for p outside [0,1] or NaN (Kani, all f64)."),
+    "C16": dict(engine="K+RS", technique="Kani proof harnesses (sentinel table, one observation, inductive constant-stream step), bit-precise", design="6/C16",
+        text="Sentinel table per type with the count fixed and other fields symbolic; one observation exact; 'n copies of x' preserved bit-exactly by add(x) for symbolic n "
+             "(induction => constant streams of any length).",
+        note="Trusted: CBMC IEEE-754 incl. sqrt (features=std; libm::sqrt assumed IEEE); |x|<=1e30; Quantile constant small samples under exact reals (RS); WeightedMean one-observation for 4 weights only."),
+    "C17": dict(engine="K+RS", technique="Kani inductive-step harnesses for sign invariants (all f64); RS/z3 inductive range invariants under exact reals", design="6/C17",
+        text="!(sum_2<0) etc. preserved by add and merge for arbitrary symbolic operands (bit-precise, no restriction on conditioning) so no variance accessor is negative; "
+             "mean within [min,max], weighted mean within range, W2<=W^2<=n*W2 => effective_len in [1,len], bin variance in [0,total/4] as inductive invariants in exact reals.",
+        note="Trusted: CBMC; A-REAL for the range claims (the C*n*2^-53 slack is exactly what real semantics leaves out); N in {4,6}; float-heavy harnesses in thorough tier."),
+    "C20": dict(engine="K+RS", technique="Kani harnesses with kani::stub recorders (order-sensitive) for the ingestion glue, inductive base/step for concatenate!, RS term identity for estimate()", design="6/C20", category="proof",
+        text="estimate() = headline accessor (term identity / bit-precise), concatenate! base+step+accessors complete; collect/extend/add-loop agreement for all types "
+             "with FromIterator/Extend for sequences of length <= 3 (bounded, listed separately in the evidence).",
+        note="Bounded part: input length <= 3. Recorder stubs replace add in the glue harnesses. Trusted: CBMC, kani::stub."),
     "C14": dict(
         engine="K+VL",
         technique="Kani function contracts (proof_for_contract / stub_verified) on the real crate, full f64 domain; Verus history lemma",
